@@ -836,8 +836,11 @@ ComponentPtr flattenComponent(const ComponentEntityPtr &parent, ComponentPtr &co
         // Take a copy of the imported component which will be used to replace the import defined in this model.
         auto importedComponentCopy = importedComponent->clone();
         importedComponentCopy->setName(component->name());
-        for (size_t i = 0; i < component->componentCount(); ++i) {
-            importedComponentCopy->addComponent(component->component(i));
+        // Adding a child to the copy takes it away from the import placeholder, so always move the first remaining child.
+        while (component->componentCount() > 0) {
+            if (!importedComponentCopy->addComponent(component->component(0))) {
+                break;
+            }
         }
 
         // Get list of required units from component's variables and math cn elements.
